@@ -259,19 +259,25 @@ impl EngineInterface for SimEngine {
         if let Some(c) = self.0.crash {
             if c.at == k {
                 if c.applied {
-                    *self.0.state.lock().unwrap() = state.clone();
+                    *self.0.state.lock().unwrap() = through_the_codec(state)?;
                 }
                 self.0.crashed.store(true, SeqCst);
                 // the process dies here: this call never returns
                 std::future::pending::<()>().await;
             }
         }
-        *self.0.state.lock().unwrap() = state.clone();
+        *self.0.state.lock().unwrap() = through_the_codec(state)?;
         Ok(())
     }
     async fn push_tx(&self, _ctx: &ctx::Ctx, _tx: Transaction) -> ctx::Result<bool> {
         Ok(false)
     }
+}
+
+/// A durable store keeps bytes, not Rust values (the RocksDB store of the node encodes the replica
+/// state with `zksync_protobuf`): what a restarted process reads is decode(encode(state)).
+fn through_the_codec(state: &ReplicaState) -> ctx::Result<ReplicaState> {
+    Ok(zksync_protobuf::decode(&zksync_protobuf::encode(state)).map_err(|e| anyhow::format_err!("stored replica state does not decode: {e:#}"))?)
 }
 
 // ---------------------------------------------------------------------------------------------
